@@ -6,7 +6,7 @@ from vf import Inconclusive, parallel, require_clean, validate_traces, vfj_lines
 
 CLAIM = {
     "text": "MathExpr.tla specifies the `{! ..}` formula language: the operator table (^ before << >> before * / % before & | before + - before = == <= >= < > before && ||, equal levels left to right, unary operators bind to the value, a value followed by a group is an implied *), exact rational values with an explicit domain (bounded magnitude/denominators, integer-only operators on exact integers, a sound bound on the float64 rounding error; outside it only 'no crash'), a printer with minimal or redundant parentheses, implied multiplication and 0x/0b/.0 and [n]/[name]/bare spellings, a reference grammar parser (precedence climbing with binding powers) and an independent flat-scan classification of token strings into well-formed / malformed (empty formula or group, unbalanced parentheses, leading, dangling or adjacent binary operators) / undocumented, plus an implementation-shaped transcription of tokenizeExpr (groups, unary detection, longest operator match), compileTokens/getNextExpr/getNextOp and opCodeOrder. TLC proves on the model: every tree with up to 3 operators prints (all variants) to a well-formed string that the grammar and the implementation-shaped parser both read back as the same tree; for every token string up to length 5 (6 thorough) the classification agrees with the grammar, the implementation-shaped parser returns the grammar's tree on well-formed strings, rejects malformed ones and never panics; `a o1 b o2 c` has the value of the grouping the table dictates for all 18x18 operator pairs; arithmetic identities; constant = bound variable. TLC then enumerates every token string up to length 5 with its class and all trees with 1 and 2 binary operators over all 18 operators (3 over one operator per level; all 18 thorough), unary operators and functions, with the exact rational value per binding; the real stdmath.Compile and `{! ..}` through the KeyBuilder evaluate every printing with and without blanks under bindings with 0, negatives, halves and quarters. Seeded random formulas of 10-30 tokens (and damaged copies) and all 2^k constant<->variable variants of random formulas with trigonometric/logarithmic functions and huge bindings are recorded and judged by TLC (MathExpr_Trace). MathExprFold.tla specifies the second clause (constants equal bound variables; the value depends on the formula and the current binding only): evaluation = the parse tree, operands left to right, over an exact model of float64 where re-association is observable (scales 2^-1021 / 1 / 2^1021 with dyadic multipliers, overflow to Inf, underflow to 0, absorption, signed zeros, NaN); Simplify may fold only sub-trees without variables. TLC proves: the arithmetic is commutative but not associative or distributive (witnesses), folding is invisible (FoldSound), lifting any subset of the literals into variables bound to the same values or writing the bound values as literals gives the same value and the same key (LiftSound, SubstSound, LiftKeySound), the invisible rewrites x*1 x/1 x-0 x^1 --x a+b=b+a stay invisible, and six unsound simplifiers (trailing / leading / commuted constants of + and * chains, merged subtrahends and divisors, distribution, x*0 x+0 0-x x-x x/x) are each told apart by generated trees; with an uninterpreted operation on 2 (3 thorough) elements folding is sound for every operation and folding with re-association exactly for the associative ones. Every tree of four families (one operator with identities and unary operators; two operators; same-level chains of three in all five shapes; constant sub-trees inside functions) is replayed: compiled once per variant and engine, each compiled object evaluated along a schedule of 10 bindings (repeats, neighbours sharing x or y), a quarter also from 3 goroutines at once, every result compared with the value TLC predicted; then with real inexact values (0.1, 0.7, 1/3, 1e308, the largest and smallest float64, -0, NaN, Inf) all recorded result texts of a family are judged by MathExprFold_Trace: equal values at the leaves => equal text, whatever variant, object, goroutine or history.",
-    "note": "Bounded: values beyond 10^6 or denominators beyond 1024, non-integer exponents, ties of round, integer-only operators on negative/non-integer operands and the values of sqrt/trig/log functions are outside the value domain (only 'no crash' and the constant/variable law). The positions of the shift and bit operators in the table, 'unary binds tightest' and 'implied * has the precedence of *' are taken from the implementation (the documentation only says common order of operations). Undocumented forms (two unary operators in a row, two values in a row, function names without a group, literals such as 010 or 1e3) are accepted with any verdict. Trusted: TLC, Go's float64 arithmetic and math.Pow for small integer powers.",
+    "note": "Binding layer: MathExprBind.tla specifies the result of one evaluation of `{! ..}` on match data as a function of the formula and the current row only (value when every variable that occurs reads a number, <BAD-TYPE> when one does not - not demanded with && / || -, never for a formula without variables) and models the compiled formula as a shared object (pool of wrappers, error counter, reads interleaved between 2 goroutines); the code's design holds, four others (one shared wrapper, counter never cleared, flag overwritten per read, checked before the reads) are refuted and the equivalent one (cleared when the wrapper is given back) is accepted; 785 formulas are compiled once and evaluated along schedules of 25 rows and from 3 goroutines. Lexical layer: MathExprLex.tla gives every printable byte its role (15 punctuation bytes have none and may appear nowhere outside a key), the documented operands at character level (123 / 123.456 / 0x1BC / 0b1101 with their values, bare names = a letter then letters and digits, keys in ONE pair of brackets), a reference lexer from bytes to the tokens of MathExpr (malformed: bracket / operand / structure) and a byte-level transcription of tokenizeExpr + compileToken (isBoxed, strconv.ParseInt(s,0,64)/ParseFloat/Atoi acceptance, validVariableName) parameterised by the name/box policy; TLC proves transcription = lexer on every edited operand and every short string over six alphabets, and refutes the designs 'A'..'z' range, identifiers with _, non-numeric = variable, box = begins-and-ends / begins with a bracket. Bounded: values beyond 10^6 or denominators beyond 1024, non-integer exponents, ties of round, integer-only operators on negative/non-integer operands and the values of sqrt/trig/log functions are outside the value domain (only 'no crash' and the constant/variable law). The positions of the shift and bit operators in the table, 'unary binds tightest' and 'implied * has the precedence of *' are taken from the implementation (the documentation only says common order of operations). Undocumented forms (two unary operators in a row, two values in a row, function names without a group, literals such as 010 or 1e3) are accepted with any verdict. Trusted: TLC, Go's float64 arithmetic and math.Pow for small integer powers.",
     "technique": "TLA+ functional specification + implementation-shaped parser model checked for agreement by TLC + model-generated vectors replayed on the real code + TLC validation of recorded evaluations",
 }
 
@@ -33,6 +33,11 @@ def gen_cfg(gmode, maxlen=5, alphabet=ALPHA9, g3ops=LEVEL7, big=False):
             % (maxlen, _set(alphabet), gmode, _set(g3ops), "TRUE" if big else "FALSE"))
 
 
+def lex_cfg(kinds, nctx, maxlen, gen=True):
+    return ("INIT LInitMC\nNEXT LNextMC\nCONSTANTS Kinds = %s\n NCtx = %d\n MaxLen = %d\nINVARIANTS %s\nCHECK_DEADLOCK FALSE\n"
+            % (_set(kinds), nctx, maxlen, "LLaw LDump" if gen else "LLaw"))
+
+
 def fold_cfg(fmode, family="one", magma=2, wide=False, gen=False):
     return ("INIT FInit\nNEXT FNext\nCONSTANTS FMode = \"%s\"\n Family = \"%s\"\n MagmaN = %d\n Wide = %s\nINVARIANTS %s\nCHECK_DEADLOCK FALSE\n"
             % (fmode, family, magma, "TRUE" if wide else "FALSE", "GLawX DumpX" if gen else "FLaw"))
@@ -51,10 +56,12 @@ class Budget:
     """at most `n` TLC workers at a time"""
 
     def __init__(self, n):
-        self.free = n
+        self.n = max(1, n)
+        self.free = self.n
         self.cv = threading.Condition()
 
     def run(self, k, f):
+        k = min(k, self.n)      # a job wider than the whole budget runs alone
         with self.cv:
             while self.free < k:
                 self.cv.wait()
@@ -94,13 +101,13 @@ def _check(run):
         "is used for well-formed formulas only; `{! }` without a formula is the expression compiler's business",
     ]
     run.build_harness()
-    bud = Budget(8)
+    bud = Budget(int(os.environ.get("C19_TLC_BUDGET", "8")))
     vec_path = os.path.join(run.scratch, "c19-vectors.ndjson")
     res_path = os.path.join(run.scratch, "c19-replay.json")
     tr_path = os.path.join(run.scratch, "c19-trace.ndjson")
 
     # ---- B2 recording first (cheap)
-    p = run.drv(["trace", "-out", tr_path, "-n", 5000 if quick else 60000])
+    p = run.drv(["trace", "-out", tr_path, "-n", 5000 if quick else 60000, "-lex", 2500 if quick else 40000])
     tstat = json.loads(p.stdout.strip().splitlines()[-1])
     lines = open(tr_path).read().splitlines()
     # canaries: corrupted copies of real records; TLC must reject them (guards against a vacuous validation)
@@ -111,6 +118,30 @@ def _check(run):
             rec["got"]["ip"] += 3
         elif rec["k"] == "law" and rec["got"][-1]["c"] == "num":
             rec["got"][-1]["fp"] += 5000
+        else:
+            continue
+        rec["canary"] = True
+        lines.append(json.dumps(rec, separators=(",", ":")))
+        ncanary += 1
+    nlexcan = 0
+    for ln in [x for x in lines if '"k":"lex"' in x][:400]:
+        rec = json.loads(ln)
+        if rec["got"]["c"] == "err":          # a rejected formula reported as accepted
+            rec["got"] = {"c": "num", "ip": 0, "fp": 0, "sg": 0, "ex": 0, "mt": 0, "x": "0"}
+        elif rec["got"]["c"] == "num":
+            rec["got"]["ip"] += 3
+        else:
+            continue
+        rec["canary"] = True
+        lines.append(json.dumps(rec, separators=(",", ":")))
+        ncanary += 1
+        nlexcan += 1
+    for ln in [x for x in lines if '"k":"bind"' in x][:300]:
+        rec = json.loads(ln)
+        if rec["got"]["c"] == "text":         # the error marker reported as a number
+            rec["got"] = {"c": "num", "ip": 0, "fp": 0, "sg": 0, "ex": 0, "mt": 0, "x": "0"}
+        elif rec["got"]["c"] == "num":
+            rec["got"]["ip"] += 3
         else:
             continue
         rec["canary"] = True
@@ -138,6 +169,46 @@ def _check(run):
                 raise Inconclusive("generator %s produced only %d vectors" % (gmode, len(vs)))
             return vs
         return lambda: bud.run(workers, f)
+
+    def genlex(nctx, maxlen, workers, minvec):
+        def f():
+            label = "MathExprLex_Gen (laws + vectors: contexts 1..%d, strings <= %d)" % (nctx, maxlen)
+            r = run.tlc("MathExprLex_Gen", lex_cfg(("ctl", "edit", "str"), nctx, maxlen), workers=workers, timeout=3000, label=label, xmx="4g")
+            if r.violated:
+                require_clean(run, r, label + " (CtlLaw: byte roles, number values, refuted name/box designs; TextLaw: transcription = lexical grammar)")
+            if r.errors or not r.finished:
+                raise Inconclusive("generator %s failed: %s" % (label, r.out[-2000:]))
+            vs = vfj_lines(r.out)
+            if len(vs) < minvec:
+                raise Inconclusive("generator %s produced only %d vectors" % (label, len(vs)))
+            return vs
+        return lambda: bud.run(workers, f)
+
+    def genbind():
+        def f():
+            label = "MathExprBind_Gen (expectation per formula and row)"
+            r = run.tlc("MathExprBind_Gen", "INIT GInitB\nNEXT GNextB\nINVARIANTS GLawB DumpB\nCHECK_DEADLOCK FALSE\n", workers=1, timeout=3000, label=label)
+            if r.violated:
+                require_clean(run, r, label + " (ExpLaw)")
+            if r.errors or not r.finished:
+                raise Inconclusive("generator %s failed: %s" % (label, r.out[-2000:]))
+            vs = vfj_lines(r.out)
+            if len(vs) < 700 or not any(v["g"] == "hdr" for v in vs):
+                raise Inconclusive("generator %s produced only %d vectors" % (label, len(vs)))
+            return [v for v in vs if v["g"] == "hdr"][:1] + [v for v in vs if v["g"] != "hdr"]
+        return lambda: bud.run(1, f)
+
+    def mcbind(wide):
+        def f():
+            label = "B3 MathExprBind_MC: one compiled formula, 2 goroutines x %d evaluations, pooled wrappers; the code's design holds, 4 other designs refuted, 1 equivalent design accepted" % (3 if wide else 2)
+            cfg = ("INIT BInit\nNEXT BNext\nCONSTANTS G = 2\n MaxEv = %d\n Wide = %s\nINVARIANTS Obs Exclusive\nPOSTCONDITION Refuted\nCHECK_DEADLOCK FALSE\n"
+                   % (3 if wide else 2, "TRUE" if wide else "FALSE"))
+            r = run.tlc("MathExprBind_MC", cfg, workers=1, timeout=3000, label=label)
+            require_clean(run, r, label)
+            if r.distinct < 50000:
+                raise Inconclusive("%s explored only %d states" % (label, r.distinct))
+            return r
+        return lambda: bud.run(1, f)
 
     def genx(family, workers, minvec, wide=False):
         def f():
@@ -185,6 +256,7 @@ def _check(run):
                 gen("g1", gen_cfg("g1"), 1, 1500),
                 gen("g3", gen_cfg("g3"), 1, 3000)]
         gensx = [genx("two", 2, 4000), genx("three", 2, 4000), genx("func", 1, 2000), genx("one", 1, 1500)]
+        lexjob = genlex(4, 4, 2, 20000)
         b3 += [mcx("B3 float64 edge arithmetic: laws, non-associativity, negative controls", fold_cfg("arith"), 1, 1),
                mcx("B3 folding under every binary operation on 2 elements", fold_cfg("magma", magma=2), 1, 20)]
     else:
@@ -198,11 +270,15 @@ def _check(run):
                 gen("g3", gen_cfg("g3", g3ops=OPS18), 4, 50000)]
         gensx = [genx("three", 4, 12000, wide=True), genx("two", 4, 12000, wide=True), genx("func", 2, 3000, wide=True),
                  genx("one", 1, 1500, wide=True)]
+        lexjob = genlex(8, 6, 4, 300000)
         b3 += [mcx("B3 float64 edge arithmetic: laws, non-associativity, negative controls", fold_cfg("arith"), 1, 1),
                mcx("B3 folding under every binary operation on 2 elements", fold_cfg("magma", magma=2), 1, 20),
                mcx("B3 folding under every binary operation on 3 elements", fold_cfg("magma", magma=3), 4, 19000)]
-    jobs = gensx + gens + b3 + [val(i, pth) for i, pth, _ in chunks]
+    jobs = [lexjob, genbind(), mcbind(not quick)] + gensx + gens + b3 + [val(i, pth) for i, pth, _ in chunks]
     results = parallel(jobs, len(jobs))
+    lex_vs = results[0]
+    bind_vs = results[1]
+    results = results[3:]
     genx_res = results[:len(gensx)]
     results = results[len(gensx):]
     gen_res = results[:len(gens)]
@@ -294,6 +370,64 @@ def _check(run):
     run.cov["fold_b2_families"] = nfam
     run.cov["fold_b2_corrupted_families_rejected"] = "%d of %d" % (fcan_rej, fcanary)
 
+    # ---- lexical layer (MathExprLex): B1 replay of the byte strings TLC enumerated
+    lex_vec = os.path.join(run.scratch, "c19-lex-vectors.ndjson")
+    lex_res = os.path.join(run.scratch, "c19-lex-replay.json")
+    with open(lex_vec, "w") as f:
+        for v in lex_vs:
+            f.write(json.dumps(v, separators=(",", ":")) + "\n")
+    run.drv(["lex", "-in", lex_vec, "-out", lex_res])
+    lres = json.load(open(lex_res))
+    if lres["vectors"] != len(lex_vs):
+        raise Inconclusive("lex: replayed %d of %d vectors" % (lres["vectors"], len(lex_vs)))
+    for need in ("mal:bracket", "mal:operand", "mal:structure", "wf", "undoc"):
+        if lres["per_class"].get(need, 0) < 500:
+            raise Inconclusive("lex: only %d generated texts of class %s" % (lres["per_class"].get(need, 0), need))
+    run.cov["lex_b1_texts"] = lres["vectors"]
+    run.cov["lex_b1_texts_per_kind"] = lres["per_group"]
+    run.cov["lex_b1_texts_per_class"] = lres["per_class"]
+    run.cov["lex_b1_evaluations"] = lres["runs"]
+    run.cov["lex_b1_evaluations_with_predicted_value"] = lres["valued"]
+    run.cov["lex_b1_real_code_agrees_with_byte_level_transcription"] = "%d of %d texts (information, not a verdict)" % (
+        lres["impl_agree"], lres["impl_agree"] + lres["impl_differ"])
+    run.cov["traces_validated_against_impl"] += lres["runs"]
+    run.cov["evaluations"] += lres["runs"]
+    run.cov["distinct_nontrivial"] += lres["distinct_nontrivial"]
+    for smp in lres["samples"] or []:
+        run.sample({"lex_b1": smp})
+    for m in lres["mismatches"] or []:
+        run.violation("lex-b1:%s:%s" % (m["class"], m["g"]),
+                      "formula %r (%s, binding x,y = %s) gives %s; the specification (MathExprLex) expects: %s" % (
+                          m["text"], m["engine"], m["binding"][:2], m["got"], m["expect"]), m)
+
+    # ---- binding layer (MathExprBind): every formula compiled once, evaluated along a schedule of rows and from 3 goroutines
+    bind_vec = os.path.join(run.scratch, "c19-bind-vectors.ndjson")
+    bind_res = os.path.join(run.scratch, "c19-bind-replay.json")
+    with open(bind_vec, "w") as f:
+        for v in bind_vs:
+            f.write(json.dumps(v, separators=(",", ":")) + "\n")
+    run.drv(["bind", "-in", bind_vec, "-out", bind_res, "-par", 3 if quick else 6])
+    bres = json.load(open(bind_res))
+    if bres["vectors"] != len(bind_vs) - 1:
+        raise Inconclusive("bind: replayed %d of %d vectors" % (bres["vectors"], len(bind_vs) - 1))
+    if bres["want_bad"] < 10000 or bres["want_value"] < 10000:
+        raise Inconclusive("bind: too few demanding evaluations (%d marker, %d value)" % (bres["want_bad"], bres["want_value"]))
+    run.cov["bind_b1_formulas"] = bres["vectors"]
+    run.cov["bind_b1_formulas_per_family"] = bres["per_group"]
+    run.cov["bind_b1_compiled_objects"] = bres["objects"]
+    run.cov["bind_b1_evaluations"] = bres["runs"]
+    run.cov["bind_b1_evaluations_expecting_the_marker"] = bres["want_bad"]
+    run.cov["bind_b1_evaluations_expecting_a_value"] = bres["want_value"]
+    run.cov["traces_validated_against_impl"] += bres["runs"]
+    run.cov["evaluations"] += bres["runs"]
+    run.cov["distinct_nontrivial"] += bres["distinct_nontrivial"]
+    for smp in (bres["samples"] or [])[:1]:
+        run.sample({"bind_b1": smp})
+    for m in bres["mismatches"] or []:
+        run.violation("bind-b1:%s:%s:%s" % (m["class"], m["g"], m["engine"]),
+                      "%s compiled once: %s; the specification (MathExprBind: the result depends on the formula and the current row only) expects %s" % (
+                          m["text"], m["got"], m["expect"]), m)
+
     # ---- B1: replay of the generated vectors on the real code
     nvec = 0
     with open(vec_path, "w") as f:
@@ -330,6 +464,14 @@ def _check(run):
             if rec.get("canary"):
                 canary_rejected += 1
                 continue
+            if rec["k"] == "lex":
+                run.violation("lex-b2:%s" % bad["class"], "formula %r (%s) under %s evaluates to %s; rejected by MathExprLex.tla (%s)" % (
+                    rec["shown"], rec["eng"], rec["bind"], rec["got"], bad["class"]), rec)
+                continue
+            if rec["k"] == "bind":
+                run.violation("b2:%s" % bad["class"], "%s (%s) compiled once; on match data where the variables %s read no number and the others %s it gives %s; "
+                              "rejected by MathExprBind.tla (%s)" % (rec["text"], rec["eng"], rec["badv"], rec["bind"], rec["got"]["x"], bad["class"]), rec)
+                continue
             if rec["k"] == "law":
                 what = "the variants %s (constants <-> variables bound to the same values, bindings %s, %s) evaluate to %s" % (
                     rec["texts"], rec["binding"], rec["eng"], [g["c"] if g["c"] != "num" else g["ip"] + g["fp"] / 1e6 for g in rec["got"]])
@@ -344,6 +486,8 @@ def _check(run):
     run.cov["b2_records"] = consumed
     run.cov["b2_value_records"] = tstat["val"]
     run.cov["b2_law_records"] = tstat["law"]
+    run.cov["lex_b2_byte_damaged_formulas"] = tstat["lex"]
+    run.cov["bind_b2_records"] = tstat["bind"]
     run.cov["b2_records_inside_domain"] = nontrivial - ncanary
     run.cov["traces_validated_against_impl"] += tstat["evaluations"]
     run.cov["evaluations"] += tstat["evaluations"]
@@ -356,4 +500,6 @@ def _check(run):
                        "(negative control) apart in the model; B3: every tree / token string / operator pair of MathExpr_MC; B1: one vector per token string or tree, evaluated in every "
                        "printing x blanks x {stdmath, quoted and bare `{! ..}`} x 5 bindings, non-trivial = malformed (must be rejected) or some "
                        "binding with a value inside the domain; B2: one record per evaluation / per 2^k variant family, inside the domain = "
-                       "malformed, well-formed with a defined value, or a family of >= 2 variants")
+                       "malformed, well-formed with a defined value, or a family of >= 2 variants; "
+                       "lex B1: one vector per byte string (edited operand in a context / string over an alphabet), non-trivial = malformed or a value inside "
+                       "the domain; lex B2: one record per byte-damaged random formula")
